@@ -18,7 +18,10 @@ import traceback
 from concurrent.futures import ProcessPoolExecutor, as_completed
 
 ROOT = os.path.dirname(os.path.dirname(os.path.abspath(__file__)))
-REPO_SRC = "/repo/src"
+# The registered commands always check /repo. VERIF_REPO_SRC is a tooling override used only by
+# tools/scratch_mutant.sh: it points a *copy* of /verif at a scratch copy of the library, so
+# that seeded changes can be tried without touching /repo (and while a soak run is using it).
+REPO_SRC = os.environ.get("VERIF_REPO_SRC", "/repo/src")
 
 PROPS = {
     "C02": "checks.c02",
